@@ -158,9 +158,9 @@ impl CommandAcknowledgement {
     /// Completes the acknowledgement, exactly as the command worker does.
     pub fn verif_done(&self, status: CommandStatus) { self.done(status) }
 
-    /// The three cells without polling: (done flag, status, a waker is registered).
-    pub fn verif_peek(&self) -> (bool, CommandStatus, bool) {
-        (self.handle.done.load(Ordering::Acquire), *self.handle.status.lock(), self.handle.waker_state.lock().waker.is_some())
+    /// The three cells without polling: (done flag, status, a waker is registered — `None` while a poll holds the waker lock).
+    pub fn verif_peek(&self) -> (bool, CommandStatus, Option<bool>) {
+        (self.handle.done.load(Ordering::Acquire), *self.handle.status.lock(), self.handle.waker_state.try_lock().map(|guard| guard.waker.is_some()))
     }
 }
 
